@@ -62,7 +62,7 @@ func init() {
 			}
 			return []string{"release", "release#orders"}
 		},
-		Required: []string{"h=0", "h<=4/table-only", "h=5", "h=30", "index=0", "index=last", "index>=2^30"},
+		Required: []string{"h=0", "h<=4/table-only", "h=5", "h=30", "index=0", "index=last", "index>=2^30", "history/same-query-repeated", "history/A-B-A-related-indexes"},
 		Merge: func(tier string, rs map[string]*mon.Result) []mon.Violation {
 			if r := rs["release#orders"]; r != nil && r.Complete && r.Buckets["order/descending"] == 0 && len(r.Violations) == 0 {
 				return []mon.Violation{{Sig: "c05/orders-process-observed-nothing", Flavour: "release#orders", Detail: []byte(`{}`), Count: 1, Inconclusive: true}}
@@ -106,6 +106,7 @@ func init() {
 				h := 12 - idx/16
 				c05Run(w, c05Block{h: h, start: 0, n: (int64(1) << uint(h+1)) - 1, dup: true})
 			}})
+			fams = append(fams, mon.Family{Name: "repeated-and-related-queries", Env: 3, N: c.Pick(31*8, 31*64), Run: c05Related})
 			fams = append(fams, mon.Family{Name: "all-indexes", Env: 2, N: len(blocks), Run: func(w *mon.W, idx int) { c05Run(w, blocks[idx]) }})
 			return fams
 		},
@@ -262,5 +263,68 @@ func c05Orders(w *mon.W, _ int) {
 	w.DistinctExact(ev)
 	w.Sample(func() interface{} {
 		return mon.D{"what": "heights 16..0 asked descending / strided / random first in a fresh process", "queries": ev}
+	})
+}
+
+// c05Related: exhaustive over inputs is not exhaustive over histories (round 11 seeded a memo in front of IndexToPath
+// whose hit counter overflowed into the stored path at the 10th identical query, and one whose key could not tell index A
+// from A + 2^30 at height 30). One height and a few indexes per case: the same query 40 times in a row, then
+// A, B, A, B, A for every B = A +- 2^k and A +- 1, A +- 1023, A +- 1024, A +- 1025 that lies in the tree.
+func c05Related(w *mon.W, idx int) {
+	r := w.Rng
+	h := idx % 31
+	total := (int64(1) << uint(h+1)) - 1
+	full := int32(total)
+	ask := func(index int64) bool {
+		w.Op, w.A, w.B = "IndexToPath(history)", int64(h), index
+		got := bmtree.IndexToPath(int32(h), int32(index))
+		l, prefix := c05NodeAt(h, index)
+		exp := bmPathWord(prefix, l, h)
+		w.Eval(2)
+		if got != exp {
+			w.Fail("IndexToPath/answer-depends-on-earlier-queries", mon.D{"height": h, "index": index, "got": fmt.Sprintf("%#016x", got), "expected": fmt.Sprintf("%#016x", exp)})
+			return false
+		}
+		if back := bmtree.PathToIndex(full, got); int64(back) != index {
+			w.Fail("PathToIndex(IndexToPath)", mon.D{"height": h, "index": index, "back": back})
+			return false
+		}
+		return true
+	}
+	var as []int64
+	switch (idx / 31) % 4 {
+	case 0:
+		as = []int64{0, total - 1, total / 2}
+	case 1:
+		as = []int64{int64(r.Uint64() % uint64(total)), (int64(1) << uint(r.Intn(h+1))) - 1}
+	default:
+		as = []int64{int64(r.Uint64() % uint64(total)), int64(r.Uint64() % uint64(total))}
+	}
+	for _, a := range as {
+		for k := 0; k < 40; k++ {
+			if !ask(a) {
+				return
+			}
+		}
+		w.Bucket("history/same-query-repeated")
+		var ds []int64
+		for k := 0; k <= h; k++ {
+			ds = append(ds, int64(1)<<uint(k))
+		}
+		ds = append(ds, 1023, 1025, 3, 1<<10+1<<20)
+		for _, d := range ds {
+			for _, b := range []int64{a + d, a - d} {
+				if b < 0 || b >= total {
+					continue
+				}
+				if !ask(a) || !ask(b) || !ask(a) || !ask(b) || !ask(a) {
+					return
+				}
+				w.Bucket("history/A-B-A-related-indexes")
+			}
+		}
+	}
+	w.Sample(func() interface{} {
+		return mon.D{"height": h, "indexes": as, "pattern": "40x the same query, then A,B,A,B,A for B = A +- 2^k and neighbours"}
 	})
 }
